@@ -98,7 +98,7 @@ def forward_checks(rep, fnd, pid, tier):
         for (H, W) in sizes1:
             for colour in (False, True):
                 C = 3 if colour else int(rng.integers(1, 4))
-                b = biases[int(rng.integers(0, 4))]
+                b = biases[(FAMILIES.index((biort, qshift)) + sizes1.index((H, W)) + int(colour)) % 4]     # every bias with every family
                 lay = pw.ScatLayer(biort=biort, magbias=b, combine_colour=colour)
                 for kind, x in scat_inputs(rng, (2, C, H, W))[:4 if tier == "quick" else 6]:
                     cfg = dict(layer="ScatLayer", biort=biort, H=H, W=W, C=C, magbias=b, combine_colour=colour, input=kind)
@@ -114,7 +114,7 @@ def forward_checks(rep, fnd, pid, tier):
                     for n in range(x.shape[0]):
                         want = ref_scat1(x[n], biort, b, colour)
                         scale = max(np.abs(x).max(), 1e-300) * 8 + b
-                        if z[n].shape != want.shape or np.abs(z[n] - want).max() > 1e-9 * scale:
+                        if z[n].shape != want.shape or not np.isfinite(z[n]).all() or not (np.abs(z[n] - want).max() <= 1e-9 * scale):
                             ok = False
                             rep.violation("ScatLayer differs from the reference composition (pooled level-1 lowpass, smooth magnitudes, "
                                           "band-major channels) at %s: shape %s vs %s, max error %.3g" % (
@@ -122,7 +122,7 @@ def forward_checks(rep, fnd, pid, tier):
                                               np.abs(z[n] - want).max() if z[n].shape == want.shape else float("nan")), case)
                             break
                     nmag = z[:, (3 if colour else C):]
-                    if ok and nmag.min() < 0:
+                    if ok and not (nmag.min() >= 0):
                         ok = False
                         rep.violation("ScatLayer returns a negative magnitude channel (%.3g) at %s" % (nmag.min(), cfg), case)
                     n_ok += ok
@@ -132,7 +132,7 @@ def forward_checks(rep, fnd, pid, tier):
         if biort == "near_sym_b_bp" or True:
             for (H, W) in sizes2:
                 C = int(rng.integers(1, 3))
-                b = biases[int(rng.integers(0, 4))]
+                b = biases[(sizes2.index((H, W)) + FAMILIES.index((biort, qshift))) % 4]
                 lay = pw.ScatLayerj2(biort=biort, qshift=qshift, magbias=b)
                 for kind, x in scat_inputs(rng, (1, C, H, W))[:3 if tier == "quick" else 6]:
                     cfg = dict(layer="ScatLayerj2", biort=biort, qshift=qshift, H=H, W=W, C=C, magbias=b, input=kind)
@@ -146,14 +146,14 @@ def forward_checks(rep, fnd, pid, tier):
                         continue
                     want = ref_scat2(x[0], biort, qshift, b)
                     scale = max(np.abs(x).max(), 1e-300) * 64 + b
-                    if z[0].shape != want.shape or np.abs(z[0] - want).max() > 1e-9 * scale:
+                    if z[0].shape != want.shape or not np.isfinite(z[0]).all() or not (np.abs(z[0] - want).max() <= 1e-9 * scale):
                         bad = ""
                         if z[0].shape == want.shape:
                             k = int(np.argmax(np.abs(z[0] - want).reshape(want.shape[0], -1).max(1)))
                             bad = "; worst output channel %d (band %d, input channel %d)" % (k, k // C, k % C)
                         rep.violation("ScatLayerj2 differs from the reference two-scale second-order cascade at %s: shape %s vs %s%s"
                                       % (cfg, z[0].shape, want.shape, bad), case)
-                    elif z[0][7 * C:].min() < 0:        # bands 7..48 are magnitudes (1..6 are pooled lowpasses of U1)
+                    elif not (z[0][7 * C:].min() >= 0):        # bands 7..48 are magnitudes (1..6 are pooled lowpasses of U1)
                         rep.violation("ScatLayerj2 returns a negative magnitude channel at %s" % (cfg,), case)
                     else:
                         n_ok += 1
@@ -176,7 +176,7 @@ def forward_checks(rep, fnd, pid, tier):
                         rep.violation("%s raised %r on a %dx%d input (sizes >= 2 must be edge-extended)" % (name, e, H, W),
                                       {"api": name, "check": "scat_shape", "cfg": cfg})
                     continue
-                if tuple(z.shape) != want or float(z[:, first_mag:].min()) < 0:
+                if tuple(z.shape) != want or not (float(z[:, first_mag:].min()) >= 0) or not bool(torch.isfinite(z).all()):
                     rep.violation("%s on a %dx%d input: shape %s (documented %s) or a negative magnitude" % (name, H, W, tuple(z.shape), want),
                                   {"api": name, "check": "scat_shape", "cfg": cfg})
                 else:
@@ -197,6 +197,11 @@ def backward_checks(rep, fnd, pid, tier):
         for colour in (False, True):
             layers.append(("ScatLayer(%s,colour=%s)" % (biort, colour), lambda biort=biort, colour=colour, b=1e-2: pw.ScatLayer(biort=biort, magbias=b, combine_colour=colour), (1, 3, 8, 6)))
             layers.append(("ScatLayerj2(%s,colour=%s)" % (biort, colour), lambda biort=biort, qshift=qshift, colour=colour, b=1e-2: pw.ScatLayerj2(biort=biort, qshift=qshift, magbias=b, combine_colour=colour), (1, 3, 8, 16)))
+    # the layers' other padding mode (the backward of the band-pass family threads `mode` through separate calls)
+    for (biort, qshift) in FAMILIES[:3]:
+        for colour in (False, True):
+            layers.append(("ScatLayer(%s,colour=%s,mode=zero)" % (biort, colour),
+                           lambda biort=biort, colour=colour: pw.ScatLayer(biort=biort, magbias=1e-2, combine_colour=colour, mode="zero"), (2, 3, 10, 8)))
     layers.append(("ScatLayer(near_sym_a, odd size)", lambda: pw.ScatLayer(magbias=1e-2), (1, 2, 7, 9)))
     layers.append(("ScatLayerj2(near_sym_a, size 12x10)", lambda: pw.ScatLayerj2(magbias=1e-2), (1, 1, 12, 10)))
     layers.append(("ScatLayer(magbias=1)", lambda: pw.ScatLayer(magbias=1.0), (2, 1, 6, 6)))
